@@ -318,7 +318,7 @@ func (x *Exec) storeElem(st *State, base Val, idx, v *Term) {
 	hn, h := x.elemHeapOf(st, base.Ty.Elem)
 	reg := slReg(base.T)
 	x.recordWrite(st, hn, reg, nil, nil, nil, nil)
-	st.heaps[hn] = Store(h, reg, Store(st.sel(h, reg), Add(slOff(base.T), idx), v))
+	st.heaps[hn] = Store(h, reg, Store(st.sel(h, reg), IdxAdd(slOff(base.T), idx), v))
 }
 
 // assignField assigns into base.<path> where base is an expression of
@@ -816,7 +816,7 @@ func (x *Exec) rangeStmt(s *ast.RangeStmt, st *State, label string) outcome {
 		}
 		if valObj != nil && withVal && !isInt {
 			_, h := x.elemHeapOf(s, coll.Ty.Elem)
-			s.vars[valObj] = Select(s.sel(h, slReg(coll.T)), Add(slOff(coll.T), s.vars[idxObj]))
+			s.vars[valObj] = Select(s.sel(h, slReg(coll.T)), IdxAdd(slOff(coll.T), s.vars[idxObj]))
 			s.assume(x.typeInv(s.vars[valObj], coll.Ty.Elem, s.alloc))
 		}
 	}
